@@ -1170,6 +1170,9 @@ func init() {
 				return mkBool(i.box == 0 || uint64(v)&mask(w) < 256)
 			case *Term:
 				if v.sort.K == KBV {
+					if v.sort.W <= 8 {
+						return tTrue
+					}
 					return mkCmp(OUlt, v, mkBV(256, v.sort.W))
 				}
 				if v.sort.K == KInt {
